@@ -33,45 +33,15 @@ Proof. intros. unfold mapv. apply map_app. Qed.
 Definition abs_tbl (tb : itbl) : stbl := mkS (icols tb) (live (irows tb)).
 Definition abs (s : istate) : sstate := mkSS (mapv abs_tbl (itabs s)) (iidx s).
 
-Definition tb_clean (tb : itbl) : bool := match imis tb with Some _ => false | None => true end.
-Definition clean (s : istate) : bool := forallb (fun p : Z * itbl => tb_clean (snd p)) (itabs s).
-
-Lemma clean_get : forall l t tb,
-  forallb (fun p : Z * itbl => tb_clean (snd p)) l = true -> get t l = Some tb -> imis tb = None.
+(* what a scan shows is what the abstract table holds *)
+Lemma obs1_abs : forall s t, i_obs1 s t = s_obs1 (abs s) t.
 Proof.
-  induction l as [|[k v] l IH]; intros t tb Hc Hg; [discriminate|].
-  cbn [forallb get snd] in *. apply andb_true_iff in Hc. destruct Hc as [Hv Hl].
-  destruct (k =? t).
-  - inversion Hg; subst. unfold tb_clean in Hv. destruct (imis tb); [discriminate|reflexivity].
-  - eapply IH; eassumption.
+  intros s t. unfold i_obs1, s_obs1, abs. cbn [stabs]. rewrite get_mapv.
+  destruct (get t (itabs s)) as [tb|]; reflexivity.
 Qed.
-Lemma clean_put : forall l t tb,
-  forallb (fun p : Z * itbl => tb_clean (snd p)) l = true -> tb_clean tb = true ->
-  forallb (fun p : Z * itbl => tb_clean (snd p)) (put t tb l) = true.
+Lemma obs_abs : forall s, i_obs s = s_obs (abs s).
 Proof.
-  induction l as [|[k v] l IH]; intros t tb Hc Ht; [reflexivity|].
-  cbn [forallb put snd] in *. apply andb_true_iff in Hc. destruct Hc as [Hv Hl].
-  destruct (k =? t); cbn [forallb snd]; apply andb_true_iff; split; auto.
-Qed.
-Lemma clean_del : forall l t,
-  forallb (fun p : Z * itbl => tb_clean (snd p)) l = true ->
-  forallb (fun p : Z * itbl => tb_clean (snd p)) (del t l) = true.
-Proof.
-  induction l as [|[k v] l IH]; intros t Hc; [reflexivity|].
-  cbn [forallb del snd] in *. apply andb_true_iff in Hc. destruct Hc as [Hv Hl].
-  destruct (k =? t); [exact Hl|]. cbn [forallb snd]. apply andb_true_iff; split; auto.
-Qed.
-
-(* what a scan shows is what the abstract table holds, on clean states *)
-Lemma obs1_abs : forall s t, clean s = true -> i_obs1 s t = s_obs1 (abs s) t.
-Proof.
-  intros s t Hc. unfold i_obs1, s_obs1, abs. cbn [stabs]. rewrite get_mapv.
-  destruct (get t (itabs s)) as [tb|] eqn:Hg; [|reflexivity].
-  cbn [option_map]. rewrite (clean_get _ _ _ Hc Hg). reflexivity.
-Qed.
-Lemma obs_abs : forall s, clean s = true -> i_obs s = s_obs (abs s).
-Proof.
-  intros s Hc. unfold i_obs, s_obs. apply map_ext. intro t. apply obs1_abs. exact Hc.
+  intros s. unfold i_obs, s_obs. apply map_ext. intro t. apply obs1_abs.
 Qed.
 
 (* ------------------------------------------------------------------ stored rows vs live rows *)
@@ -93,20 +63,20 @@ Proof.
   intros rs. unfold live. induction rs as [|[d r] rs IH]; [reflexivity|].
   cbn [map filter fst snd negb]. exact IH.
 Qed.
-Lemma live_update : forall (m : row -> bool) (g : row -> row) rs, has_tomb rs = false ->
-  live (map (fun p : srow => if m (snd p) then (false, g (snd p)) else p) rs)
+Lemma live_update : forall (m : row -> bool) (g : row -> row) rs,
+  live (map (fun p : srow => if negb (fst p) && m (snd p) then (false, g (snd p)) else p) rs)
   = map (fun r => if m r then g r else r) (live rs).
 Proof.
-  intros m g rs. unfold live, has_tomb. induction rs as [|[d r] rs IH]; intro Ht; [reflexivity|].
-  cbn [existsb fst] in Ht. apply orb_false_iff in Ht. destruct Ht as [Hd Ht]. subst d.
-  cbn [map filter fst snd negb]. destruct (m r); cbn [map filter fst snd negb]; f_equal; exact (IH Ht).
+  intros m g rs. unfold live. induction rs as [|[d r] rs IH]; [reflexivity|].
+  cbn [map filter fst snd]. destruct d; cbn [negb andb fst snd map filter].
+  - exact IH.
+  - destruct (m r); cbn [map filter fst snd negb]; f_equal; exact IH.
 Qed.
-Lemma live_map_all : forall (g : row -> row) rs, has_tomb rs = false ->
-  live (map (fun p : srow => (false, g (snd p))) rs) = map g (live rs).
+Lemma live_map_all : forall (g : row -> row) rs,
+  live (map (fun p : srow => if negb (fst p) then (false, g (snd p)) else p) rs) = map g (live rs).
 Proof.
-  intros g rs. unfold live, has_tomb. induction rs as [|[d r] rs IH]; intro Ht; [reflexivity|].
-  cbn [existsb fst] in Ht. apply orb_false_iff in Ht. destruct Ht as [Hd Ht]. subst d.
-  cbn [map filter fst snd negb]. f_equal. exact (IH Ht).
+  intros g rs. unfold live. induction rs as [|[d r] rs IH]; [reflexivity|].
+  cbn [map filter fst snd]. destruct d; cbn [negb fst snd map filter]; [exact IH|]. f_equal. exact IH.
 Qed.
 Lemma live_pad : forall (g : row -> row) rs,
   live (map (fun p : srow => (fst p, g (snd p))) rs) = map g (live rs).
@@ -134,17 +104,6 @@ Proof.
   destruct (fi tb) as [tb'|]; cbn [option_map fst snd]; [|reflexivity].
   rewrite put_mapv. reflexivity.
 Qed.
-Lemma on_clean : forall t fi s,
-  (forall tb tb', fi tb = Some tb' -> imis tb = None -> imis tb' = None) ->
-  clean s = true -> clean (fst (i_on t fi s)) = true.
-Proof.
-  intros t fi s H Hc. unfold i_on.
-  destruct (get t (itabs s)) as [tb|] eqn:Hg; [|exact Hc].
-  destruct (fi tb) as [tb'|] eqn:Hf; [|exact Hc].
-  cbn [fst]. unfold clean. cbn [itabs]. apply clean_put; [exact Hc|].
-  unfold tb_clean. rewrite (H tb tb' Hf (clean_get _ _ _ Hc Hg)). reflexivity.
-Qed.
-
 Lemma tbl_of_get : forall s t tb, get t (itabs s) = Some tb -> tbl_of s t = tb.
 Proof. intros s t tb H. unfold tbl_of. rewrite H. reflexivity. Qed.
 Lemma get_put_same : forall A (l : list (Z * A)) t v0 v, get t l = Some v0 -> get t (put t v l) = Some v.
@@ -152,12 +111,6 @@ Proof.
   induction l as [|[k x] l IH]; intros t v0 v H0; [discriminate|].
   cbn [get put] in *. destruct (k =? t) eqn:E; cbn [get]; rewrite E; [reflexivity|]. eapply IH; eassumption.
 Qed.
-
-Ltac keep_mis :=
-  let tb := fresh "tb" in let tb' := fresh "tb'" in let Hf := fresh "Hf" in let Hm := fresh "Hm" in
-  intros tb tb';
-  repeat match goal with |- context [match ?x with _ => _ end] => destruct x end;
-  intros Hf Hm; try discriminate; inversion Hf; subst; cbn [imis]; assumption.
 
 (* one statement outside the defect classes: same status, and the abstraction commutes *)
 Lemma step_sim : forall s st, step_class s st = 0 ->
@@ -190,29 +143,23 @@ Proof.
     apply on_sim. intros tb Hg. unfold i_delete_all, abs_tbl. cbn [option_map cols rows icols irows].
     rewrite live_delete_all. reflexivity.
   - (* UpdateEq *)
-    apply on_sim. intros tb Hg. cbn [step_class] in Hk. rewrite (tbl_of_get _ _ _ Hg) in Hk.
-    assert (Ht : has_tomb (irows tb) = false).
-    { revert Hk. destruct (ishort tb); [intro; discriminate|].
-      destruct (has_tomb (irows tb)); intro Hk; [discriminate|reflexivity]. }
+    apply on_sim. intros tb Hg.
     unfold i_update_eq, s_update_eq, abs_tbl. cbn [cols rows].
     destruct (find_col sc (icols tb)) as [i|]; [|reflexivity].
     destruct (find_col wc (icols tb)) as [j|]; [|reflexivity].
     destruct (fits (col_ty i (icols tb)) sv); [|reflexivity].
     cbn [option_map icols irows]. apply f_equal. apply f_equal.
-    exact (live_update (cell_matches j wv) (set_nth i sv) _ Ht).
+    exact (live_update (cell_matches j wv) (set_nth i sv) _).
   - (* UpdateAll *)
-    apply on_sim. intros tb Hg. cbn [step_class] in Hk. rewrite (tbl_of_get _ _ _ Hg) in Hk.
-    assert (Ht : has_tomb (irows tb) = false).
-    { revert Hk. destruct (ishort tb); [intro; discriminate|].
-      destruct (has_tomb (irows tb)); intro Hk; [discriminate|reflexivity]. }
+    apply on_sim. intros tb Hg.
     unfold i_update_all, s_update_all, abs_tbl. cbn [cols rows].
     destruct (find_col sc (icols tb)) as [i|]; [|reflexivity].
     destruct (fits (col_ty i (icols tb)) sv); [|reflexivity].
-    cbn [option_map icols irows]. apply f_equal. apply f_equal. exact (live_map_all (set_nth i sv) _ Ht).
+    cbn [option_map icols irows]. apply f_equal. apply f_equal. exact (live_map_all (set_nth i sv) _).
   - (* AddCol *)
     apply on_sim. intros tb Hg. cbn [step_class] in Hk. rewrite (tbl_of_get _ _ _ Hg) in Hk.
     unfold i_add_col, s_add_col, abs_tbl. cbn [cols rows].
-    revert Hk. destruct (has_col (cname c) (icols tb)); intro Hk; [discriminate|]. cbn [orb].
+    revert Hk. destruct (has_col (cname c) (icols tb)); intro Hk; [reflexivity|]. cbn [orb negb andb] in *.
     destruct (negb (fits (cty c) (cdef c))); [reflexivity|].
     cbn [option_map icols irows]. apply f_equal. apply f_equal.
     etransitivity; [exact (live_pad (fun r => r ++ [VN]) (irows tb))|].
@@ -220,33 +167,29 @@ Proof.
     + rewrite (val_eqb_VN _ Hd). reflexivity.
     + cbn [negb andb] in Hk. revert Hk. destruct (live (irows tb)); intro Hk; [reflexivity|discriminate].
   - (* DropCol *)
-    cbn [step_class] in Hk.
     assert (Hon : s_on t (s_drop_col c) (abs s)
                   = (abs (fst (i_on t (i_drop_col c ex) s)), snd (i_on t (i_drop_col c ex) s))).
-    { apply on_sim. intros tb Hg. rewrite (tbl_of_get _ _ _ Hg) in Hk.
-      unfold i_drop_col, s_drop_col, abs_tbl. unfold has_col in Hk. cbn [cols rows].
-      revert Hk. destruct (find_col c (icols tb)) as [i|]; intro Hk; [|reflexivity]. cbn [negb] in Hk.
-      revert Hk. destruct ex; cbn [negb]; intro Hk; [|discriminate].
-      revert Hk. destruct (length (icols tb) <=? 1)%nat; intro Hk; [discriminate|].
-      assert (Ht : has_tomb (irows tb) = false).
-      { revert Hk. destruct (has_tomb (irows tb)); intro Hk; [discriminate|reflexivity]. }
-      cbn [option_map icols irows]. apply f_equal. apply f_equal. exact (live_map_all (remove_nth i) _ Ht). }
+    { apply on_sim. intros tb Hg.
+      unfold i_drop_col, s_drop_col, abs_tbl. cbn [cols rows].
+      destruct (find_col c (icols tb)) as [i|]; [|reflexivity].
+      destruct (length (icols tb) <=? 1)%nat; [reflexivity|].
+      cbn [option_map icols irows]. apply f_equal. apply f_equal. exact (live_pad (remove_nth i) (irows tb)). }
     rewrite Hon. destruct (i_on t (i_drop_col c ex) s) as [s' ok]. cbn [fst snd].
     destruct ok; reflexivity.
   - (* RenameCol *)
     cbn [step_class] in Hk.
     assert (Hon : s_on t (s_rename_col c n) (abs s)
                   = (abs (fst (i_on t (i_rename_col c n) s)), snd (i_on t (i_rename_col c n) s))).
-    { apply on_sim. intros tb Hg. rewrite (tbl_of_get _ _ _ Hg) in Hk.
-      unfold i_rename_col, s_rename_col, abs_tbl. unfold has_col in *. cbn [cols rows].
-      revert Hk. destruct (find_col c (icols tb)) as [i|]; intro Hk; [|reflexivity]. cbn [negb] in Hk.
-      revert Hk. destruct (find_col n (icols tb)); intro Hk; [discriminate|]. reflexivity. }
+    { apply on_sim. intros tb Hg.
+      unfold i_rename_col, s_rename_col, abs_tbl. cbn [cols rows].
+      destruct (find_col c (icols tb)) as [i|]; [|reflexivity].
+      destruct (has_col n (icols tb)); reflexivity. }
     rewrite Hon. unfold i_on.
     destruct (get t (itabs s)) as [tb|] eqn:Hg; [|reflexivity].
     rewrite (tbl_of_get _ _ _ Hg) in Hk.
-    unfold i_rename_col. unfold has_col in Hk.
-    revert Hk. destruct (find_col c (icols tb)) as [i|]; intro Hk; [|reflexivity]. cbn [negb] in Hk.
-    revert Hk. destruct (find_col n (icols tb)); intro Hk; [discriminate|].
+    unfold i_rename_col. unfold has_col at 1 in Hk.
+    revert Hk. destruct (find_col c (icols tb)) as [i|]; intro Hk; [|reflexivity].
+    revert Hk. destruct (has_col n (icols tb)); intro Hk; [reflexivity|]. cbn [negb andb] in Hk.
     assert (He : existsb (idx_on t c) (iidx s) = false).
     { revert Hk. destruct (existsb (idx_on t c) (iidx s)); intro Hk; [discriminate|reflexivity]. }
     cbn [fst snd]. unfold abs. cbn [stabs sidx itabs iidx]. f_equal. f_equal.
@@ -267,131 +210,112 @@ Proof.
   - reflexivity.
 Qed.
 
-Lemma step_clean : forall s st, step_class s st = 0 -> clean s = true -> clean (fst (i_step s st)) = true.
-Proof.
-  intros s st Hk Hc. destruct st as [t cs|t|t r|t c v|t c v|t|t sc sv wc wv|t sc sv|t c|t c ex|t c n|t rs|i t c|i|];
-    cbn [i_step].
-  - destruct (get t (itabs s)); [exact Hc|]. destruct cs as [|c0 cs]; [exact Hc|].
-    destruct (nodup_names (c0 :: cs) && forallb (fun c => fits (cty c) (cdef c)) (c0 :: cs)); [|exact Hc].
-    cbn [fst]. unfold clean in *. cbn [itabs]. rewrite forallb_app, Hc. reflexivity.
-  - destruct (get t (itabs s)); [|exact Hc]. cbn [fst]. unfold clean in *. cbn [itabs]. apply clean_del. exact Hc.
-  - apply on_clean; [|exact Hc]. unfold i_insert. keep_mis.
-  - apply on_clean; [|exact Hc]. unfold i_insert_one. keep_mis.
-  - apply on_clean; [|exact Hc]. unfold i_delete_eq. keep_mis.
-  - apply on_clean; [|exact Hc]. unfold i_delete_all. keep_mis.
-  - apply on_clean; [|exact Hc]. unfold i_update_eq. keep_mis.
-  - apply on_clean; [|exact Hc]. unfold i_update_all. keep_mis.
-  - apply on_clean; [|exact Hc]. unfold i_add_col. keep_mis.
-  - cbn [step_class] in Hk.
-    assert (H : clean (fst (i_on t (i_drop_col c ex) s)) = true).
-    { unfold i_on. destruct (get t (itabs s)) as [tb|] eqn:Hg; [|exact Hc].
-      rewrite (tbl_of_get _ _ _ Hg) in Hk. unfold i_drop_col. unfold has_col in Hk.
-      revert Hk. destruct (find_col c (icols tb)) as [i|]; intro Hk; [|exact Hc]. cbn [negb] in Hk.
-      revert Hk. destruct ex; cbn [negb]; intro Hk; [|discriminate]. cbn [fst]. unfold clean in *. cbn [itabs].
-      apply clean_put; [exact Hc|]. unfold tb_clean. cbn [imis].
-      rewrite (clean_get _ _ _ Hc Hg). reflexivity. }
-    destruct (i_on t (i_drop_col c ex) s) as [s' ok]. cbn [fst] in *. destruct ok; exact H.
-  - apply on_clean; [|exact Hc]. unfold i_rename_col. keep_mis.
-  - apply on_clean; [|exact Hc]. keep_mis.
-  - destruct (get t (itabs s)); [|exact Hc]. destruct (has_idx i (iidx s)); [exact Hc|].
-    destruct (in_files i (ifiles s)); exact Hc.
-  - destruct (has_idx i (iidx s)); exact Hc.
-  - exact Hc.
-Qed.
-
 (* ------------------------------------------------------------------ histories *)
-Theorem hist_sim : forall h s, clean s = true -> hist_class s h = 0 -> i_run s h = s_run (abs s) h.
+Theorem hist_sim : forall h s, hist_class s h = 0 -> i_run s h = s_run (abs s) h.
 Proof.
-  induction h as [|st h IH]; intros s Hc Hk; [reflexivity|].
+  induction h as [|st h IH]; intros s Hk; [reflexivity|].
   cbn [hist_class] in Hk.
   assert (Hs : step_class s st = 0).
   { revert Hk. destruct (step_class s st =? 0) eqn:E; intro Hk; [apply Z.eqb_eq; exact E|].
     apply Z.eqb_neq in E. contradiction. }
   rewrite Hs in Hk. cbn [Z.eqb] in Hk.
   cbn [i_run s_run]. rewrite (step_sim s st Hs).
-  pose proof (step_clean s st Hs Hc) as Hc'.
   destruct (i_step s st) as [s' ok]. cbn [fst snd] in *.
-  rewrite (obs_abs s' Hc'). f_equal. apply IH; assumption.
+  rewrite (obs_abs s'). f_equal. apply IH; assumption.
 Qed.
 
 Lemma hist_correct_l : forall h, hist_class i_empty h = 0 -> i_run i_empty h = s_run s_empty h.
-Proof. intros h Hk. exact (hist_sim h i_empty eq_refl Hk). Qed.
+Proof. intros h Hk. exact (hist_sim h i_empty Hk). Qed.
 
 (* ------------------------------------------------------------------ the clauses of the property,
    for every table content, directly on the implementation model *)
 Lemma add_column_reads_default_l : forall s t tb c,
-  clean s = true -> get t (itabs s) = Some tb -> fits (cty c) (cdef c) = true ->
+  get t (itabs s) = Some tb -> has_col (cname c) (icols tb) = false -> fits (cty c) (cdef c) = true ->
   (cdef c = VN \/ live (irows tb) = []) ->
   i_obs1 (fst (i_step s (AddCol t c))) t
   = TRows (map cname (icols tb) ++ [cname c]) (map (fun r => r ++ [cdef c]) (live (irows tb))).
 Proof.
-  intros s t tb c Hc Hg Hf Hd. cbn [i_step]. unfold i_on. rewrite Hg. unfold i_add_col. rewrite Hf.
-  cbn [negb fst]. unfold i_obs1. cbn [itabs]. rewrite (get_put_same _ _ _ _ _ Hg). cbn [imis icols irows].
-  rewrite (clean_get _ _ _ Hc Hg). rewrite map_app. cbn [map]. apply f_equal.
+  intros s t tb c Hg Hn Hf Hd. cbn [i_step]. unfold i_on. rewrite Hg. unfold i_add_col. rewrite Hn, Hf.
+  cbn [negb orb fst]. unfold i_obs1. cbn [itabs]. rewrite (get_put_same _ _ _ _ _ Hg). cbn [icols irows].
+  rewrite map_app. cbn [map]. apply f_equal.
   etransitivity; [exact (live_pad (fun r => r ++ [VN]) (irows tb))|].
   destruct Hd as [Hd|Hd]; rewrite Hd; reflexivity.
 Qed.
 
 (* inside class 1 the existing rows read NULL whatever the DEFAULT *)
 Lemma add_column_reads_null_l : forall s t tb c,
-  clean s = true -> get t (itabs s) = Some tb -> fits (cty c) (cdef c) = true ->
+  get t (itabs s) = Some tb -> has_col (cname c) (icols tb) = false -> fits (cty c) (cdef c) = true ->
   i_obs1 (fst (i_step s (AddCol t c))) t
   = TRows (map cname (icols tb) ++ [cname c]) (map (fun r => r ++ [VN]) (live (irows tb))).
 Proof.
-  intros s t tb c Hc Hg Hf. cbn [i_step]. unfold i_on. rewrite Hg. unfold i_add_col. rewrite Hf.
-  cbn [negb fst]. unfold i_obs1. cbn [itabs]. rewrite (get_put_same _ _ _ _ _ Hg). cbn [imis icols irows].
-  rewrite (clean_get _ _ _ Hc Hg). rewrite map_app. cbn [map]. apply f_equal.
+  intros s t tb c Hg Hn Hf. cbn [i_step]. unfold i_on. rewrite Hg. unfold i_add_col. rewrite Hn, Hf.
+  cbn [negb orb fst]. unfold i_obs1. cbn [itabs]. rewrite (get_put_same _ _ _ _ _ Hg). cbn [icols irows].
+  rewrite map_app. cbn [map]. apply f_equal.
   exact (live_pad (fun r => r ++ [VN]) (irows tb)).
 Qed.
 
-Lemma drop_column_preserves_others_l : forall s t tb c i,
-  clean s = true -> get t (itabs s) = Some tb -> find_col c (icols tb) = Some i ->
-  has_tomb (irows tb) = false ->
-  i_obs1 (fst (i_step s (DropCol t c true))) t
+(* DROP COLUMN, however the name is spelled and whatever deleted rows are stored *)
+Lemma drop_column_preserves_others_l : forall s t tb c i ex,
+  get t (itabs s) = Some tb -> find_col c (icols tb) = Some i -> (1 < length (icols tb))%nat ->
+  i_obs1 (fst (i_step s (DropCol t c ex))) t
   = TRows (map cname (remove_nth i (icols tb))) (map (remove_nth i) (live (irows tb))).
 Proof.
-  intros s t tb c i Hc Hg Hf Ht. cbn [i_step]. unfold i_on. rewrite Hg. unfold i_drop_col. rewrite Hf.
-  cbn [fst]. unfold i_obs1. cbn [itabs]. rewrite (get_put_same _ _ _ _ _ Hg). cbn [imis icols irows].
-  rewrite (clean_get _ _ _ Hc Hg). apply f_equal. exact (live_map_all (remove_nth i) _ Ht).
+  intros s t tb c i ex Hg Hf Hl. cbn [i_step]. unfold i_on. rewrite Hg. unfold i_drop_col. rewrite Hf.
+  destruct (length (icols tb) <=? 1)%nat eqn:E; [apply Nat.leb_le in E; lia|].
+  cbn [fst]. unfold i_obs1. cbn [itabs]. rewrite (get_put_same _ _ _ _ _ Hg). cbn [icols irows].
+  apply f_equal. exact (live_pad (remove_nth i) (irows tb)).
 Qed.
 
-(* as the code is: EVERY stored row, deleted or not, is shown after DROP COLUMN *)
-Lemma drop_column_shows_all_stored_l : forall s t tb c i,
-  clean s = true -> get t (itabs s) = Some tb -> find_col c (icols tb) = Some i ->
-  i_obs1 (fst (i_step s (DropCol t c true))) t
-  = TRows (map cname (remove_nth i (icols tb))) (map (fun p => remove_nth i (snd p)) (irows tb)).
+(* the stored tombstones stay tombstones: a later DROP COLUMN cannot show them either *)
+Lemma drop_column_keeps_delete_bits_l : forall c ex tb tb',
+  i_drop_col c ex tb = Some tb' -> map fst (irows tb') = map fst (irows tb).
 Proof.
-  intros s t tb c i Hc Hg Hf. cbn [i_step]. unfold i_on. rewrite Hg. unfold i_drop_col. rewrite Hf.
-  cbn [fst]. unfold i_obs1. cbn [itabs]. rewrite (get_put_same _ _ _ _ _ Hg). cbn [imis icols irows].
-  rewrite (clean_get _ _ _ Hc Hg). f_equal. unfold live.
-  induction (irows tb) as [|p l IH]; [reflexivity|]. cbn [map filter fst snd negb]. f_equal. exact IH.
+  intros c ex tb tb' H. unfold i_drop_col in H.
+  destruct (find_col c (icols tb)); [|discriminate].
+  destruct (length (icols tb) <=? 1)%nat; [discriminate|].
+  inversion H; subst. cbn [irows]. rewrite map_map. reflexivity.
 Qed.
 
 Lemma rename_preserves_values_l : forall s t tb c n i,
-  clean s = true -> get t (itabs s) = Some tb -> find_col c (icols tb) = Some i ->
+  get t (itabs s) = Some tb -> find_col c (icols tb) = Some i -> has_col n (icols tb) = false ->
   i_obs1 (fst (i_step s (RenameCol t c n))) t
   = TRows (map cname (rename_at i n (icols tb))) (live (irows tb)).
 Proof.
-  intros s t tb c n i Hc Hg Hf. cbn [i_step]. unfold i_on. rewrite Hg. unfold i_rename_col. rewrite Hf.
-  cbn [fst]. unfold i_obs1. cbn [itabs]. rewrite (get_put_same _ _ _ _ _ Hg). cbn [imis icols irows].
-  rewrite (clean_get _ _ _ Hc Hg). reflexivity.
+  intros s t tb c n i Hg Hf Hn. cbn [i_step]. unfold i_on. rewrite Hg. unfold i_rename_col. rewrite Hf, Hn.
+  cbn [fst]. unfold i_obs1. cbn [itabs]. rewrite (get_put_same _ _ _ _ _ Hg). cbn [icols irows].
+  reflexivity.
 Qed.
 
 Lemma truncate_then_insert_visible_l : forall s t tb b r,
-  clean s = true -> get t (itabs s) = Some tb -> fits_row (icols tb) r = true ->
+  get t (itabs s) = Some tb -> fits_row (icols tb) r = true ->
   i_obs1 (fst (i_step s (Truncate t b))) t = TRows (map cname (icols tb)) [] /\
   i_obs1 (fst (i_step (fst (i_step s (Truncate t b))) (Insert t r))) t = TRows (map cname (icols tb)) [r].
 Proof.
-  intros s t tb b r Hc Hg Hf.
-  assert (E1 : fst (i_step s (Truncate t b)) = mkIS (put t (mkI (icols tb) [] (imis tb) false) (itabs s)) (iidx s) (ifiles s)).
+  intros s t tb b r Hg Hf.
+  assert (E1 : fst (i_step s (Truncate t b)) = mkIS (put t (mkI (icols tb) [] false) (itabs s)) (iidx s) (ifiles s)).
   { cbn [i_step]. unfold i_on. rewrite Hg. reflexivity. }
   rewrite E1.
-  pose proof (get_put_same _ _ t tb (mkI (icols tb) [] (imis tb) false) Hg) as Hg2.
+  pose proof (get_put_same _ _ t tb (mkI (icols tb) [] false) Hg) as Hg2.
   split.
-  - unfold i_obs1. cbn [itabs]. rewrite Hg2. cbn [imis icols irows]. rewrite (clean_get _ _ _ Hc Hg). reflexivity.
-  - cbn [i_step]. unfold i_on. cbn [itabs]. rewrite Hg2. unfold i_insert. cbn [icols irows imis]. rewrite Hf. cbn [fst].
-    unfold i_obs1. cbn [itabs]. rewrite (get_put_same _ _ _ _ _ Hg2). cbn [imis icols irows app].
-    rewrite (clean_get _ _ _ Hc Hg). reflexivity.
+  - unfold i_obs1. cbn [itabs]. rewrite Hg2. cbn [icols irows]. reflexivity.
+  - cbn [i_step]. unfold i_on. cbn [itabs]. rewrite Hg2. unfold i_insert. cbn [icols irows ishort]. rewrite Hf. cbn [fst].
+    unfold i_obs1. cbn [itabs]. rewrite (get_put_same _ _ _ _ _ Hg2). cbn [icols irows app].
+    reflexivity.
+Qed.
+
+(* the statements whose defects were repaired now behave as the relational model says:
+   they belong to no class *)
+Lemma former_classes_repaired_l : forall s t c ex n sc sv wc wv,
+  step_class s (DropCol t c ex) = 0 /\
+  step_class s (AddCol t (mkCol c 0 VN)) = 0 /\
+  (existsb (idx_on t c) (iidx s) = false -> step_class s (RenameCol t c n) = 0) /\
+  (ishort (tbl_of s t) = false -> step_class s (UpdateEq t sc sv wc wv) = 0 /\ step_class s (UpdateAll t sc sv) = 0).
+Proof.
+  intros. repeat split.
+  - cbn [step_class cname cdef val_eqb negb andb]. rewrite andb_false_r. reflexivity.
+  - intro He. cbn [step_class]. rewrite He, andb_false_r. reflexivity.
+  - cbn [step_class]. rewrite H. reflexivity.
+  - cbn [step_class]. rewrite H. reflexivity.
 Qed.
 
 (* reopening leaves every table as it was (by definition of the model: the correspondence run
